@@ -108,12 +108,20 @@ def stepOk (c : Case) (hist : List (Op × Bool)) (prev : Bool) (op : Op) (s : St
       | some e => s.exc == none && !s.swallowed && s.run == B3.ofBool e
       | none => true) &&     -- nothing open: excluded by `wf`
      s.events == []
-   | .construct => s.run == B3.ofBool prev && runOutcome c.fault (constructPlan c.cls prev) s
-   | .assign i =>
-     (match c.cls.fields[i]? with
-      | some f => s.run == B3.ofBool prev && runOutcome c.fault (assignPlan c.cls prev f) s
-      | none => true)        -- no such field: excluded by `wf`
-   | .validate => s.run == B3.ofBool prev && runOutcome c.fault (validatePlan c.cls prev) s)
+   | .construct k =>
+     (match c.classes[k]? with
+      | some cls => s.run == B3.ofBool prev && runOutcome c.fault (constructPlan cls prev) s
+      | none => true)        -- no such class: excluded by `wf`
+   | .assign k i =>
+     (match c.classes[k]? with
+      | some cls => (match cls.fields[i]? with
+        | some f => s.run == B3.ofBool prev && runOutcome c.fault (assignPlan cls prev f) s
+        | none => true)      -- no such field: excluded by `wf`
+      | none => true)
+   | .validate k =>
+     (match c.classes[k]? with
+      | some cls => s.run == B3.ofBool prev && runOutcome c.fault (validatePlan cls prev) s
+      | none => true))
 
 def specGo (c : Case) : List (Op × Bool) → Bool → List Op → List Step → Bool
   | _, _, [], [] => true
@@ -126,18 +134,25 @@ def specGo (c : Case) : List (Op × Bool) → Bool → List Op → List Step →
 
 def spec (c : Case) (o : Obs) : Bool := specGo c [] c.start c.ops o.steps
 
-/-- well-bracketed history (an exit only when a context is open), assignments to existing fields, the
-    faulty callback (if any) is a validator, and the class and its keyword call are well-formed for the
-    initializer model (distinct valid names, every parameter passed once) -/
+/-- a reader names an existing class of the hierarchy (and an existing field of it) -/
+def opOk (c : Case) : Op → Bool
+  | .construct k => (c.classes[k]?).isSome
+  | .assign k i => (match c.classes[k]? with
+    | some cls => (cls.fields[i]?).isSome
+    | none => false)
+  | .validate k => (c.classes[k]?).isSome
+  | _ => true
+
+/-- well-bracketed history (an exit only when a context is open), readers on existing classes and fields,
+    the faulty callback (if any) is a validator, and every class with its keyword call is well-formed for
+    the initializer model (distinct valid names, every parameter passed once) -/
 def wf (c : Case) : Bool :=
   (bal 0 c.ops).isSome &&
-  c.ops.all (fun op => match op with
-    | .assign i => decide (i < c.cls.fields.length)
-    | _ => true) &&
+  c.ops.all (opOk c) &&
   (match c.fault with
    | none => true
    | some e => e.kind == "validator") &&
-  C02.wf (initCase c.cls true c.fault)
+  c.classes.all (fun cls => C02.wf (initCase cls true c.fault))
 
 /-- nothing is listed: the one deviation seen on the pinned tree (exit always re-enabled) was repaired by
     ee5b683; its witness is `C20_old_manager_violates` and a corpus case -/
